@@ -984,4 +984,238 @@ structure Ordered (log : List Version) : Prop where
   wf : ∀ v ∈ log, v.ts.Sorted
   stamps : log.Pairwise (fun a b => a.stamp ≤ b.stamp)
 
+/-! ### helpers for the literal clauses, the declarative value characterisation and `historyE` (review r5) -/
+
+/-- the publications visible as of `T` (`none`: all of them) -/
+def pubs (log : List Version) (asof : Option Int) : Store := (logRows log).filter (vis asof)
+
+theorem specFirstLiteral_eq (log : List Version) (asof : Option Int) :
+    specFirstLiteral log asof = (dates (pubs log asof)).map fun d => (d, (group d (pubs log asof)).head?.bind (·.val)) := by
+  cases asof with
+  | none => simp only [specFirstLiteral, pubs, filter_vis_none]
+  | some T => rfl
+
+theorem specFirst_eq_pubs (log : List Version) (asof : Option Int) :
+    specFirst log asof = (dates (pubs log asof)).map fun d => (d, firstVal (group d (pubs log asof))) := by
+  cases asof with
+  | none => simp only [specFirst, pubs, filter_vis_none]
+  | some T => rfl
+
+/-- in a column strictly increasing in stamp, the rows stamped no later than a member `r` end with `r` -/
+theorem filter_le_of_mem (c : Store) (hs : SortedLt c) (r : Row) (hr : r ∈ c) :
+    ∃ A, c.filter (fun q => decide (q.stamp ≤ r.stamp)) = A ++ [r] := by
+  obtain ⟨A, B, rfl⟩ := List.append_of_mem hr
+  refine ⟨A, ?_⟩
+  obtain ⟨_, hB, hAB⟩ := List.pairwise_append.mp hs
+  have hA' : A.filter (fun q => decide (q.stamp ≤ r.stamp)) = A := by
+    rw [List.filter_eq_self]; intro a ha
+    have := hAB a ha r (by simp)
+    simp only [decide_eq_true_eq]; omega
+  have hB' : B.filter (fun q => decide (q.stamp ≤ r.stamp)) = [] := by
+    rw [List.filter_eq_nil_iff]; intro b hb
+    have := List.rel_of_pairwise_cons hB hb
+    simp only [decide_eq_true_eq]; omega
+  simp [List.filter_append, hA', hB']
+
+/-- a version whose rows are rows of the store shows, as of its stamp, exactly its own values -/
+theorem rows_in_store_visible (st : Store) (hg : Good st) (w : Version)
+    (hin : ∀ p ∈ w.ts, (⟨p.1, w.stamp, p.2⟩ : Row) ∈ st) :
+    ∀ p ∈ w.ts, ∃ y, (p.1, y) ∈ biRead st (some w.stamp) (-1) ∧ (p.2 = Option.none ∨ p.2 = y) := by
+  intro p hp
+  have hr := hin p hp
+  have hgr : (⟨p.1, w.stamp, p.2⟩ : Row) ∈ group p.1 st := mem_group.mpr ⟨hr, rfl⟩
+  obtain ⟨A, hA⟩ := filter_le_of_mem _ (hg p.1).1 _ hgr
+  refine ⟨lastVal ((group p.1 st).filter (vis (some w.stamp))), ?_, ?_⟩
+  · rw [biRead_last st hg]
+    simp only [specRows, List.mem_map, Prod.mk.injEq]
+    refine ⟨p.1, ?_, rfl, rfl⟩
+    rw [mem_dates]
+    exact ⟨⟨p.1, w.stamp, p.2⟩, List.mem_filter.mpr ⟨hr, by simp [vis]⟩, rfl⟩
+  · have : (group p.1 st).filter (vis (some w.stamp)) = A ++ [⟨p.1, w.stamp, p.2⟩] := hA
+    rw [this, lastVal_snoc]
+    cases hv : p.2 with
+    | none => exact Or.inl rfl
+    | some x => right; simp
+
+theorem foldl_or_eq (B : Store) (a : Option Int) : B.foldl (fun acc r => r.val.or acc) a = (lastVal B).or a := by
+  induction B generalizing a with
+  | nil => simp [lastVal]
+  | cons r B ih =>
+    simp only [List.foldl_cons, lastVal]
+    rw [ih, ih (r.val.or Option.none), Option.or_none, Option.or_assoc]
+
+theorem lastVal_append (A B : Store) : lastVal (A ++ B) = (lastVal B).or (lastVal A) := by
+  simp only [lastVal, List.foldl_append]; exact foldl_or_eq B _
+
+theorem lastVal_cons (r : Row) (B : Store) : lastVal (r :: B) = (lastVal B).or r.val := by
+  have := lastVal_append [r] B
+  simpa [lastVal] using this
+
+theorem lastVal_eq_none_iff (rows : Store) : lastVal rows = Option.none ↔ ∀ r ∈ rows, r.val = Option.none := by
+  induction rows with
+  | nil => simp [lastVal]
+  | cons r rows ih =>
+    rw [lastVal_cons, Option.or_eq_none_iff, ih]
+    simp [and_comm]
+
+theorem lastVal_some_mem {rows : Store} {x : Int} (h : lastVal rows = some x) : ∃ r ∈ rows, r.val = some x := by
+  induction rows with
+  | nil => simp [lastVal] at h
+  | cons r rows ih =>
+    rw [lastVal_cons] at h
+    cases hv : lastVal rows with
+    | some y =>
+      rw [hv] at h; simp at h; subst h
+      obtain ⟨q, hq, hqv⟩ := ih hv
+      exact ⟨q, by simp [hq], hqv⟩
+    | none =>
+      rw [hv] at h; simp at h
+      exact ⟨r, by simp, h⟩
+
+/-- a proper series has one row per date -/
+theorem group_Bi_single (ts : TS) (s : Int) (hs : ts.Sorted) (p : Int × Option Int) (hp : p ∈ ts) :
+    group p.1 (Bi ts s) = [⟨p.1, s, p.2⟩] := by
+  have hgd := (good_Bi ts s hs p.1).1
+  have hm : (⟨p.1, s, p.2⟩ : Row) ∈ group p.1 (Bi ts s) :=
+    mem_group.mpr ⟨by simp only [Bi, List.mem_map]; exact ⟨p, hp, rfl⟩, rfl⟩
+  match hgrp : group p.1 (Bi ts s), hgd, hm with
+  | [], _, hm => simp at hm
+  | [a], _, hm => simp only [List.mem_singleton] at hm; rw [hm]
+  | a :: b :: rest, hgd, _ =>
+    exfalso
+    have hab := List.rel_of_pairwise_cons hgd (List.mem_cons_self (a := b) (l := rest))
+    have ha : a ∈ group p.1 (Bi ts s) := by rw [hgrp]; simp
+    have hb : b ∈ group p.1 (Bi ts s) := by rw [hgrp]; simp
+    have e1 : a.stamp = s := by
+      have := (mem_group.mp ha).1; simp only [Bi, List.mem_map] at this; obtain ⟨_, _, rfl⟩ := this; rfl
+    have e2 : b.stamp = s := by
+      have := (mem_group.mp hb).1; simp only [Bi, List.mem_map] at this; obtain ⟨_, _, rfl⟩ := this; rfl
+    omega
+
+/-- the rows of date `d` that the versions of `log` stamped `≤ T` publish, in merge order -/
+def col (d T : Int) (log : List Version) : Store := group d ((logRows log).filter (vis (some T)))
+
+theorem col_cons (d T : Int) (v : Version) (rest : List Version) :
+    col d T (v :: rest) = (if v.stamp ≤ T then group d (Bi v.ts v.stamp) else []) ++ col d T rest := by
+  have e : logRows (v :: rest) = Bi v.ts v.stamp ++ logRows rest := by simp [logRows]
+  unfold col
+  rw [e, List.filter_append, group_append]
+  congr 1
+  split
+  · rename_i hle
+    congr 1
+    rw [List.filter_eq_self]
+    intro r hr
+    simp only [Bi, List.mem_map] at hr
+    obtain ⟨_, _, rfl⟩ := hr
+    simp [vis, hle]
+  · rename_i hle
+    have : (Bi v.ts v.stamp).filter (vis (some T)) = [] := by
+      rw [List.filter_eq_nil_iff]
+      intro r hr
+      simp only [Bi, List.mem_map] at hr
+      obtain ⟨_, _, rfl⟩ := hr
+      simp [vis, hle]
+    rw [this]; rfl
+
+theorem mem_col {d T : Int} {log : List Version} {r : Row} :
+    r ∈ col d T log ↔ ∃ v ∈ log, v.stamp ≤ T ∧ r.stamp = v.stamp ∧ r.date = d ∧ (d, r.val) ∈ v.ts := by
+  simp only [col, mem_group, List.mem_filter, logRows, List.mem_flatMap, Bi, List.mem_map, vis, decide_eq_true_eq]
+  constructor
+  · rintro ⟨⟨⟨v, hv, p, hp, rfl⟩, hT⟩, rfl⟩
+    exact ⟨v, hv, hT, rfl, rfl, hp⟩
+  · rintro ⟨v, hv, hT, hs, hd, hp⟩
+    refine ⟨⟨⟨v, hv, (d, r.val), hp, ?_⟩, by omega⟩, hd⟩
+    cases r; simp_all
+
+/-- the fold of a date's column is `some x` exactly if some version stamped `≤ T` publishes `x` for the date and no version
+    merged after it and stamped `≤ T` publishes a non-NaN value for that date -/
+theorem lastVal_col_some (d T : Int) (x : Int) (log : List Version) (hwf : ∀ v ∈ log, v.ts.Sorted) :
+    lastVal (col d T log) = some x ↔
+      ∃ before v after, log = before ++ v :: after ∧ v.stamp ≤ T ∧ (d, some x) ∈ v.ts ∧
+        ∀ u ∈ after, u.stamp ≤ T → ∀ y, (d, some y) ∉ u.ts := by
+  induction log with
+  | nil => simp [col, logRows, group, lastVal]
+  | cons v rest ih =>
+    have ih := ih (fun u hu => hwf u (by simp [hu]))
+    rw [col_cons, lastVal_append]
+    constructor
+    · intro h
+      cases hR : lastVal (col d T rest) with
+      | some z =>
+        rw [hR] at h; simp at h; subst h
+        obtain ⟨before, u, after, rfl, h1, h2, h3⟩ := ih.mp hR
+        exact ⟨v :: before, u, after, by simp, h1, h2, h3⟩
+      | none =>
+        rw [hR] at h; simp at h
+        obtain ⟨r, hr, hrv⟩ := lastVal_some_mem h
+        split at hr
+        · rename_i hle
+          have h1 := (mem_group.mp hr)
+          have h2 := h1.1
+          simp only [Bi, List.mem_map] at h2
+          obtain ⟨p, hp, rfl⟩ := h2
+          refine ⟨[], v, rest, rfl, hle, ?_, ?_⟩
+          · have : p = (d, some x) := by
+              cases p; simp at h1 hrv; simp [h1.2, hrv]
+            rw [← this]; exact hp
+          · intro u hu huT y hy
+            have := (lastVal_eq_none_iff _).mp hR ⟨d, u.stamp, some y⟩ (mem_col.mpr ⟨u, hu, huT, rfl, rfl, hy⟩)
+            simp at this
+        · simp at hr
+    · rintro ⟨before, u, after, he, h1, h2, h3⟩
+      cases before with
+      | nil =>
+        simp only [List.nil_append, List.cons.injEq] at he
+        obtain ⟨rfl, rfl⟩ := he
+        have hnone : lastVal (col d T rest) = Option.none := by
+          rw [lastVal_eq_none_iff]
+          intro r hr
+          obtain ⟨w, hw, hwT, _, _, hp⟩ := mem_col.mp hr
+          cases hv : r.val with
+          | none => rfl
+          | some y => rw [hv] at hp; exact absurd hp (h3 w hw hwT y)
+        rw [hnone, if_pos h1, group_Bi_single v.ts v.stamp (hwf v (by simp)) (d, some x) h2]
+        simp [lastVal]
+      | cons b before =>
+        simp only [List.cons_append, List.cons.injEq] at he
+        obtain ⟨rfl, rfl⟩ := he
+        rw [ih.mpr ⟨before, u, after, rfl, h1, h2, h3⟩]; simp
+
+theorem dropRepeats_ne_nil (c : Store) (hs : SortedLe c) (hc : c ≠ []) : dropRepeats c ≠ [] := by
+  intro he
+  have htrue : Down (fun _ => true) := fun _ _ _ _ => rfl
+  have := dropRepeats_spec htrue c hs
+  rw [he] at this
+  have ft : c.filter (fun _ => true) = c := by simp
+  rw [ft] at this
+  exact hc (accVal_eq_none.mp this.symm)
+
+/-- a merge of frames that are not both empty is not empty -/
+theorem mergeFrames_ne_nil (o n : Store) (h : o ++ n ≠ []) : mergeFrames [o, n] ≠ [] := by
+  obtain ⟨r, hr⟩ := List.exists_mem_of_ne_nil _ h
+  intro he
+  have hg := group_mergeFrames r.date o n
+  rw [he] at hg
+  have hne : sortStamp (group r.date (o ++ n)) ≠ [] := by
+    intro hc
+    have : r ∈ sortStamp (group r.date (o ++ n)) := mem_sortStamp.mpr (mem_group.mpr ⟨hr, rfl⟩)
+    rw [hc] at this; simp at this
+  exact dropRepeats_ne_nil _ (sortStamp_sorted _) hne (by simpa [group] using hg.symm)
+
+theorem historyE_foldl_ok (rest : List Version) (st : Store) (hst : st ≠ []) :
+    rest.foldl mergeStepE (.ok (some st)) = .ok (rest.foldl mergeStep (some st)) ∧
+      ∃ st', rest.foldl mergeStep (some st) = some st' ∧ st' ≠ [] := by
+  induction rest generalizing st with
+  | nil => exact ⟨rfl, st, rfl, hst⟩
+  | cons v rest ih =>
+    have hne : st ++ Bi v.ts v.stamp ≠ [] := by simp [hst]
+    have hm := mergeFrames_ne_nil st (Bi v.ts v.stamp) hne
+    have e1 : mergeStepE (.ok (some st)) v = .ok (some (mergeFrames [st, Bi v.ts v.stamp])) := by
+      simp only [mergeStepE, biMergeE, biMerge]
+      rw [if_neg (by simpa [List.isEmpty_iff] using hne)]
+    have e2 : mergeStep (some st) v = some (mergeFrames [st, Bi v.ts v.stamp]) := rfl
+    rw [List.foldl_cons, List.foldl_cons, e1, e2]
+    exact ih _ hm
+
 end Pyg.Bitemp
